@@ -24,22 +24,47 @@ def _owner_handle(F, b, depth=0, seen=None):
     Returns (handle name or None, is-trait-impl path or None)."""
     imp = b.get("impl") or {}
     if imp:
-        return F.handle_name(imp["self_ty"]), imp.get("trait")
-    if depth > 3 or balance.is_api(F, b):
-        return None, None
+        hn = F.handle_name(imp["self_ty"])
+        if hn is not None or imp.get("trait") or balance.is_api(F, b):
+            return hn, imp.get("trait")
+        # a private inherent method of a non-handle type (`ArcInner::release(&self) -> bool`): it belongs to whoever calls it
+    owners = _owner_handles(F, b, depth, seen)
+    if len(owners) == 1:
+        return next(iter(owners))
+    return None, None
+
+
+def _owner_handles(F, b, depth=0, seen=None):
+    """The set of (handle, trait) owners of a private function: those of its local callers; for the destructor of a private
+    non-handle type (a guard), those of the functions that hold a value of that type."""
+    imp = b.get("impl") or {}
+    guard_adt = None
+    if imp:
+        hn = F.handle_name(imp["self_ty"])
+        st = F.ty(imp["self_ty"])
+        private_guard = imp.get("trait") == "core::ops::drop::Drop" and hn is None and st["k"] == "adt" and st.get("local") and not (F.adts.get(st["path"]) or {}).get("reachable", True)
+        if private_guard:
+            guard_adt = st["path"]
+        elif hn is not None or imp.get("trait") or balance.is_api(F, b):
+            return {(hn, imp.get("trait"))}
+    if depth > 3 or (guard_adt is None and balance.is_api(F, b)):
+        return {(None, None)}
     seen = seen or set()
     if b["key"] in seen:
-        return None, None
+        return set()
     seen = seen | {b["key"]}
     owners = set()
     for c in F.body_list:
         if c["key"] == b["key"] or c["kind"] == "Closure":
             continue
-        if any(bl["term"]["k"] == "call" and balance._callee_key(bl["term"]) == b["key"] for bl in c["blocks"]):
-            owners.add(_owner_handle(F, c, depth + 1, seen))
-    if len(owners) == 1:
-        return next(iter(owners))
-    return None, None
+        uses = any(bl["term"]["k"] == "call" and balance._callee_key(bl["term"]) == b["key"] for bl in c["blocks"])
+        if guard_adt is not None and not uses:
+            cimp = c.get("impl") or {}
+            own_method = cimp and F.ty(cimp["self_ty"]).get("path") == guard_adt
+            uses = not own_method and any(bl["term"]["k"] == "drop" and F.ty(bl["term"].get("ty", 0)).get("path") == guard_adt for bl in c["blocks"])
+        if uses:
+            owners |= _owner_handles(F, c, depth + 1, seen)
+    return owners or {(None, None)}
 
 
 def rule_funnel(ctx, rep):
@@ -57,13 +82,31 @@ def rule_funnel(ctx, rep):
             else:
                 rep.bad("R-FUNNEL", ik, "a %s of the count word lives in %s, outside Arc's own clone/release/constructor code: every handle kind must funnel through Arc's single increment and decrement" % (cls, b["key"]), F.loc(b, t["span"]), tag)
         for b, bi, t, what in balance.free_sites(F):
-            hn, trait_ = _owner_handle(F, b)
+            owners = _owner_handles(F, b)
             ik = "%s/free" % b["key"]
-            if hn in ("Arc", "UniqueArc") and (not trait_ or trait_ == "core::ops::drop::Drop"):
+            if owners and all(hn in ("Arc", "UniqueArc") and (not trait_ or trait_ == "core::ops::drop::Drop") for hn, trait_ in owners):
                 rep.ok("R-FUNNEL", ik, cfg=tag)
             else:
                 rep.bad("R-FUNNEL", ik, "a block is freed (%s) in %s, outside Arc's release path and UniqueArc's unwrap" % (what, b["key"]), F.loc(b, t["span"]), tag)
     rep.floor("R-FUNNEL", 4, "at least one increment, one decrement, one count initialisation and one free site (today: 1 + 1 + 3 + 2; sites may be merged by refactors)")
+
+
+def _free_uses(F, A, key):
+    """(body, path, event) wherever the freeing function `key` runs: a call of it, or - for the destructor of a private guard
+    type (`struct FreeOnDrop`) - the drop of a value of that type."""
+    kb = F.body(key) or {}
+    imp = kb.get("impl") or {}
+    adt = F.ty(imp["self_ty"]).get("path") if imp.get("trait") == "core::ops::drop::Drop" else None
+    for b2 in F.body_list:
+        if b2["key"] == key:
+            continue
+        for p in A.paths.get(b2["key"], []):
+            for e in p.events:
+                d = e["detail"] if isinstance(e["detail"], dict) else {}
+                if e["kind"] == "CALL" and d.get("callee") == key and d.get("outcome") is None:
+                    yield b2, p, e
+                elif adt is not None and e["kind"] == "DROP" and d.get("adt") == adt:
+                    yield b2, p, e
 
 
 def rule_destroy(ctx, rep):
@@ -96,23 +139,43 @@ def rule_destroy(ctx, rep):
             from . import c03
 
             G = c03.Gates(F)
-            for b2 in F.body_list:
-                acq_edges = None
-                for p in A.paths.get(b2["key"], []):
-                    for e in p.events:
-                        if e["kind"] == "CALL" and isinstance(e["detail"], dict) and e["detail"].get("callee") == key and e["detail"].get("outcome") is None:
-                            callers += 1
-                            if vget(e["vec"], "free_raw"):
-                                # shape S3: the owner observed `count == 1` through an acquire load on this path (no decrement needed)
-                                if acq_edges is None:
-                                    acq_edges = [(x, y) for (x, y, roots, o) in c03.gate_edges_with_order(F, G, cfg.Body(b2)) if 1 in roots]  # the ordering of that observation is C02's concern (R-ORD-2), not a lifetime matter
-                                blocks = list(p.blocks)
-                                upto = blocks.index(e["bb"]) if e["bb"] in blocks else len(blocks)
-                                passed = any(blocks[i] == x and blocks[i + 1] == y for i in range(min(upto, len(blocks) - 1)) for (x, y) in acq_edges)
-                                if passed and not vget(p.vec, "dec"):
-                                    continue
-                                ok = False
-                                rep.bad("R-DESTROY", ik, balance.path_report(F, b2, p, "the freeing helper %s is called on a path with neither a preceding decrement of the count word that observed 1 nor an observation `count == 1` by the owner" % key), F.loc(b2, e["span"]), tag)
+            todo, seen_keys = [key], {key}
+            while todo:
+                fk = todo.pop()
+                acq_cache = {}
+                for b2, p, e in _free_uses(F, A, fk):
+                    callers += 1
+                    if not vget(e["vec"], "free_raw"):
+                        continue  # paired with a decrement that observed 1 inside (shape S1)
+                    # shape S3: the owner observed `count == 1` through an acquire load on this path (no decrement needed)
+                    if b2["key"] not in acq_cache:
+                        acq_cache[b2["key"]] = [(x, y) for (x, y, roots, o) in c03.gate_edges_with_order(F, G, cfg.Body(b2)) if 1 in roots]  # the ordering of that observation is C02's concern (R-ORD-2), not a lifetime matter
+                    acq_edges = acq_cache[b2["key"]]
+                    blocks = list(p.blocks)
+                    upto = blocks.index(e["bb"]) if e["bb"] in blocks else len(blocks)
+                    passed = any(blocks[i] == x and blocks[i + 1] == y for i in range(min(upto, len(blocks) - 1)) for (x, y) in acq_edges)
+                    if passed and not vget(p.vec, "dec"):
+                        continue
+                    # shape S2 through a helper: the caller is typed as the sole owner (takes a UniqueArc by value),
+                    # does not decrement, frees exactly once and retires its owner without the destructor
+                    if any(F.handle_name(x) == "UniqueArc" for x in b2.get("inputs", [])) and not vget(p.vec, "dec") and vget(p.vec, "own") == -1 and vget(p.vec, "free_raw") == 1:
+                        continue
+                    if vget(p.vec, "free_s1") and not vget(p.vec, "free_raw"):
+                        continue  # the path as a whole pairs this free with its own decrement that observed 1
+                    # shape S0: a construction guard gives back a block that came straight from the allocator on this path and that
+                    # no handle has ever owned (filling it unwound)
+                    tt = b2["blocks"][e["bb"]]["term"] if isinstance(e.get("bb"), int) and e["bb"] < len(b2["blocks"]) else None
+                    if e["kind"] == "DROP" and tt is not None and tt["k"] == "drop" and vget(p.vec, "alloc") >= 1 and not vget(p.vec, "dec") and vget(p.vec, "own") == 0 and c03._holds_fresh_block(F, E, cfg.Body(b2), {"mv": tt["place"]}):
+                        continue
+                    if not balance.is_api(F, b2) and b2["kind"] in ("Fn", "AssocFn"):
+                        # a private function that frees without a test of its own (`drop_slow`, a guard's constructor): the
+                        # obligation moves on to whoever calls it
+                        if b2["key"] not in seen_keys:
+                            seen_keys.add(b2["key"])
+                            todo.append(b2["key"])
+                        continue
+                    ok = False
+                    rep.bad("R-DESTROY", ik, balance.path_report(F, b2, p, "the freeing helper %s is called on a path with neither a preceding decrement of the count word that observed 1 nor an observation `count == 1` by the owner" % fk), F.loc(b2, e["span"]), tag)
             if callers == 0:
                 rep.bad("R-DESTROY", ik, "freeing helper %s has no caller: cannot establish shape S1" % key, F.loc(b), tag)
             elif ok:
@@ -163,7 +226,7 @@ def rule_destroy(ctx, rep):
                         rep.bad("R-DESTROY", ik2, balance.path_report(F, unit, p, "the release that observed the last owner %s having returned the block to the allocator %d times instead of once: %s" % (how, nfree, "the memory is leaked" if nfree == 0 else "double free")), F.loc(unit, d["switch"]["span"]), tag)
                     elif n_exits:
                         rep.ok("R-DESTROY", ik2, "%d exits" % n_exits, cfg=tag)
-    rep.floor("R-DESTROY", 4, "S1 site, S2 site, decrement gate, last-owner exits")
+    rep.floor("R-DESTROY", 3, "at least one free site (today two: the release path and the sole owner's unwrap; they may share one guard type), the decrement gate, the last-owner exits")
 
 
 def rule_moves(ctx, rep):
@@ -245,6 +308,9 @@ def rule_sameblock(ctx, rep):
 def run(ctx, rep):
     balance.rule_release_retarget(ctx, rep)  # release-then-store through `&mut Handle` must store on unwinding exits too
     rule_sameblock(ctx, rep)
+    from .. import guards
+
+    guards.rules(ctx, rep)  # a partial-initialisation guard is a second destroyer of payload values: never after the owner exists, never ahead of the writes
     balance.rule_bal(ctx, rep)
     balance.rule_unw(ctx, rep)
     rule_funnel(ctx, rep)
